@@ -311,7 +311,7 @@ func AnyUniverse(thorough bool) []*Node {
 	for _, l := range leaves {
 		out = append(out, L(l))
 	}
-	small := []any{int64(1), int64(2), "a"}
+	small := []any{int64(1), int64(2), "a", nil}
 	for _, k := range kinds {
 		out = append(out, mkColl(k))
 		for _, a := range small {
@@ -322,6 +322,16 @@ func AnyUniverse(thorough bool) []*Node {
 				}
 				out = append(out, mkColl(k, L(a), L(b)))
 			}
+		}
+	}
+	// keyed collections whose first value is itself a two-key map and whose later association differs
+	for _, k1 := range []string{"gomap", "Catalog", "Map"} {
+		for _, k2 := range []string{"gomap", "Map", "Catalog", "List"} {
+			for _, lastv := range []any{int64(1), int64(2), nil} {
+				out = append(out, mkColl(k1, mkColl(k2, L(int64(1)), L("a")), L(lastv)))
+				out = append(out, mkColl(k1, L(lastv), mkColl(k2, L(int64(1)), L("a"))))
+			}
+			out = append(out, mkColl(k1, mkColl(k2, L(int64(1)), L("a")), mkColl(k2, L(int64(1)), L("b")), L(int64(3))))
 		}
 	}
 	// depth 2 and 3
